@@ -87,11 +87,24 @@ def check_parity(rep, prog):
                 if not vals or vals[0]:
                     probs.append('the root is not seeded with parity false')
         found = False
+
+        def mentions_info(x):
+            for y in x.walk():
+                if y.k == 'MemberExpr' and y.decl and y.decl.get('name') == 'info':
+                    return True
+                if y.k == 'DeclRefExpr' and y.decl_id is not None and resolve_bool(fn, y) is not y and depth_guard[0] < 3:
+                    depth_guard[0] += 1
+                    try:
+                        if mentions_info(resolve_bool(fn, y)):
+                            return True
+                    finally:
+                        depth_guard[0] -= 1
+            return False
+        depth_guard = [0]
         for c in inner:
             for x in c.walk():
                 if x.k in ('BinaryOperator', 'ConditionalOperator', 'UnaryOperator') and (x.k != 'BinaryOperator' or x.op in ('^', '!=', '==')) and \
-                        any(y.k == 'MemberExpr' and y.decl and y.decl.get('name') == 'info' for y in x.walk()) and \
-                        not (x.k == 'UnaryOperator' and x.op != '!'):
+                        mentions_info(x) and not (x.k == 'UnaryOperator' and x.op != '!'):
                     found = True
 
                     def atom_of(leaf):
@@ -99,7 +112,7 @@ def check_parity(rep, prog):
                         m = ex.membership(l2)
                         if m is not None and ex.var_of(m[0]) == setp:
                             return 'signed' if m[2] else None
-                        s = leaf.strip_all()
+                        s = l2.strip_all()
                         if s.k == 'MemberExpr' and s.decl and s.decl.get('name') == 'info':
                             return 'parent'
                         return None
@@ -534,7 +547,17 @@ def check_pruning(rep, prog):
                 if len(objs) == 2 and objs[0] != objs[1]:
                     return 'tops'
                 return 'tops-same-frontier'
+            # a local defined once (e.g. const lower_bound = combine(top_f, top_b)) stands for its definition
+            if v is not None and prog.vars[v].get('kind') == 'local' and qdepth[0] < 3:
+                d = ex.unique_def(fn, v)
+                if d is not None:
+                    qdepth[0] += 1
+                    try:
+                        return quantities(d)
+                    finally:
+                        qdepth[0] -= 1
             return None
+        qdepth = [0]
 
         def atomize(leaf):
             s = leaf.strip_all()
